@@ -148,7 +148,7 @@ func c01Check(env *core.Env, ci any) core.Result {
 func init() {
 	core.Register(&core.Prop{
 		ID:    "C01",
-		Rule:  "rapid-generated well-typed core-language programs (package fer: 1-6 scenario functions + helpers; i8..i64/u8..u64 and, in a quarter of the cases, i128..u256; bool, str, nested structs with value/&/&' receiver methods and by-value update functions, enums with match, integer match, fixed arrays (copy, constant-index element assignment), dynamic arrays (append, for-in with index), references (&' parameters, local &' in a block), closures capturing by reference, results with both catch forms, recursion, if/else-if/else, fuelled while with break/continue, typed and literal for-ranges; boundary-heavy literals) compiled natively and run; oracle = reference interpreter written from the property statements (math/big wrap to the declared width after every operation, truncating / and %, left-to-right evaluation, value semantics for structs/fixed arrays, write-through references). The program must be accepted, print exactly the interpreter's lines and terminate the same way. non-trivial = >= 40 interpreter steps and a value flowing through a call chain, a loop or an aggregate copy; distinct = hash of the program text",
+		Rule:  "rapid-generated well-typed core-language programs (package fer: 1-6 scenario functions + helpers; i8..i64/u8..u64 and, in a quarter of the cases, i128..u256; bool, str, nested structs with value/&/&' receiver methods and by-value update functions, enums with match, integer match, fixed arrays (copy, constant-index element assignment), whole-value assignment of a struct / array literal that reads the assigned variable, dynamic arrays (append, for-in with index, several element stores through one array value - the local or a []T parameter), references (&' parameters whose bodies use the reference itself as an operand of + - comparisons with values, literals and itself, local &' in a block), closures capturing by reference, results with both catch forms, recursion, if/else-if/else, fuelled while with break/continue, typed and literal for-ranges; boundary-heavy literals) compiled natively and run; oracle = reference interpreter written from the property statements (math/big wrap to the declared width after every operation, truncating / and %, left-to-right evaluation, value semantics for structs/fixed arrays, write-through references). The program must be accepted, print exactly the interpreter's lines and terminate the same way. non-trivial = >= 40 interpreter steps and a value flowing through a call chain, a loop or an aggregate copy; distinct = hash of the program text",
 		Gen:   c01Gen,
 		New:   func() any { return &progCase{} },
 		Check: c01Check,
